@@ -289,11 +289,16 @@ def strategy(tier):
                             cur = sum(len(x) + len(term) + len(lay) for x in segs)
                             nxt = 'NTE' + ele + 'ADD' + ele
                             target = 106 + 8192 * draw(st.integers(1, 2)) + draw(st.sampled_from([-2, -1, 0, 1]))
-                            need = target - cur - len(nxt) - 1
+                            # what lands on the edge of the read buffer: the terminator, or a blank / separator inside the value
+                            tail = draw(st.sampled_from(['', '', ' ZZ', 'Z ZZ', ele + 'ZZ', 'Z' + sub + 'ZZ']))
+                            j = 1 if tail[:1] == 'Z' else 0         # index, in the tail, of the blank / separator
+                            need = target - cur - len(nxt) - 1 - j
                             while need < 1:
                                 need += 8192
-                            segs.append(nxt + 'p' * need)
+                            segs.append(nxt + 'p' * need + tail)
                             classes.add('aligned')
+                            if tail:
+                                classes.add('aligned-inside-value')
                             continue
                         if k == 'HL':
                             hl += 1
